@@ -19,7 +19,7 @@ TECHNIQUE = "runtime monitoring: relational oracles (superposition, linearity, p
 RULE = ("super: collections of 1-6 non-overlapping spheres, every 3rd with a layered member (Mie only), every 4th nested; "
         "linpol: 8 (scatterer,theory) kinds, (a,b) normal with random scale incl. negative components; multi: 2-3 channels, "
         "label alphabets {colour names, letters, integers}, metadata as dict / DataArray(permuted) / mixed, detector as grid "
-        "with extra_dims or as a multi-channel image, wavelengths also as a plain list in the detector's channel order. non-trivial = field not identically zero; distinct by rounded case JSON")
+        "with extra_dims or as a multi-channel image, wavelengths also as a plain list in the detector's channel order, complex per-channel indices; tmpol: Tmatrix with tilted particles and polarizations other than x (refused, or linear). non-trivial = field not identically zero; distinct by rounded case JSON")
 ASSUMPTIONS = ["T-matrix is excluded from polarization linearity (it accepts only (1,0))"]
 MIN_NONTRIVIAL = 20
 REQUIRED_COUNTERS = ["calc_holo", "calc_field"]
